@@ -179,3 +179,24 @@ def string_soup(ch, allow_z=True):
     if ch.chance(60):
         src = src.rstrip(b'\r\n ')
     return src
+
+
+# ---------------------------------------------------------------------------------------
+# character-level soup: lexically interesting characters in arbitrary order
+# ---------------------------------------------------------------------------------------
+
+_CHARS = (b'--[[]]==..  \n\n\t"\'\\\\' + b'0123456789abefxXzpEnrt' + b'+-*/%^#~!<>=(){};:,@$&|?_' +
+          b'\x80\x8e\xff' + b'\r')
+
+
+def char_soup(ch, max_len=40):
+    n = 1 + ch.below(max_len)
+    out = bytearray()
+    for _ in range(n):
+        k = ch.below(10)
+        if k == 0:
+            out += ch.pick([b'--[[', b']]', b'[[', b'[=[', b']=]', b'\r\n', b'//', b'::', b'...', b'..=', b'>>>',
+                            b'0x', b'0b', b'1e', b'\\z', b'\\x4', b'\\\n', b'end', b'if', b'not', b'and'])
+        else:
+            out.append(ch.pick(_CHARS))
+    return bytes(out)
